@@ -22,7 +22,7 @@ func checkC05(p *Prog, r *Report) {
 		r.Fatal(err.Error())
 		return
 	}
-	hash, err := p.HashEntries()
+	hash, err := p.StateEntries()
 	if err != nil {
 		r.Fatal(err.Error())
 		return
